@@ -344,15 +344,18 @@ ALONE = Alone()
 
 
 # ----------------------------------------------------------------------------- operations
-def run_parse(ctx, parser, matcher, text, first, src, path=None):
+def run_parse(ctx, parser, matcher, text, first, src, path=None, modes=None):
     from gherkin.errors import CompositeParserException, ParserError
-    r0, t0, d0 = ctx.reads, ctx.toks, len(ctx.draws)
+    r0, t0, d0, g0 = ctx.reads, ctx.toks, len(ctx.draws), ctx.gates
     dirty = probe_dirty(parser, matcher)
     try:
         # a caller sets the flag when it wants another mode, not before every parse: a flag the code flipped itself stays visible
-        if getattr(parser, "_sim_mode", False) != bool(first):
+        # (the mode last asked for is remembered on the harness side: nothing is stored on the object under test)
+        last = modes.get(id(parser), False) if modes is not None else False
+        if last != bool(first):
             parser.stop_at_first_error = bool(first)
-            parser._sim_mode = bool(first)
+            if modes is not None:
+                modes[id(parser)] = bool(first)
         if src == "str":
             source = text
         else:
@@ -379,7 +382,7 @@ def run_parse(ctx, parser, matcher, text, first, src, path=None):
         out = snap
     norm = norm_doc(out, draws) if kind == "doc" else snap
     return {"op": "parse", "kind": kind, "raw": out, "snap": snap, "norm": norm, "draws": draws,
-            "reads": ctx.reads - r0, "toks": ctx.toks - t0, "dirty": dirty}
+            "reads": ctx.reads - r0, "toks": ctx.toks - t0, "gates": ctx.gates - g0, "dirty": dirty}
 
 
 def run_compile(ctx, compiler, prec, uri, attach):
@@ -421,6 +424,7 @@ class TaskState:
         self.compilers = [make_compiler(c, gens) for c in tspec.get("compilers", [])]
         self.streams = [make_stream(s) for s in tspec.get("streams", [])]
         self.records = []
+        self.modes = {}  # id(parser) -> error mode the harness last asked for
         self.finished = False
 
     def body(self, task=None):
@@ -456,7 +460,7 @@ class TaskState:
         if kind == "parse":
             parser = self.parsers[op["p"]]
             matcher = self.matchers[op["m"]] if op.get("m") is not None else None
-            return run_parse(self.ctx, parser, matcher, op["text"], op.get("first", False), op.get("src", "scanner"), op.get("path"))
+            return run_parse(self.ctx, parser, matcher, op["text"], op.get("first", False), op.get("src", "scanner"), op.get("path"), self.modes)
         if kind == "compile":
             prec = self.records[op["of"]]
             if prec.get("kind") != "doc":
@@ -616,10 +620,10 @@ class Run:
                 if op["op"] == "parse":
                     total += ALONE.parse(op["text"], ts.spec["matchers"][op["m"]] if op.get("m") is not None else None,
                                          ts.spec["parsers"][op["p"]]["b"], op.get("first", False),
-                                         "path" if op.get("src") == "path" else "text")["toks"] + 2
+                                         "path" if op.get("src") == "path" else "text")["gates"] + 2
                 elif op["op"] == "tokcli":
                     for path in op["argv"]:
-                        total += ALONE.parse(seams.cur_fs().files.get(path, b"").decode("utf-8"), None, "tok", False, "path")["toks"] + 2
+                        total += ALONE.parse(seams.cur_fs().files.get(path, b"").decode("utf-8"), None, "tok", False, "path")["gates"] + 2
                 elif op["op"] in ("stream", "cli"):
                     from .stream_ops import estimate_stream_steps
                     total += estimate_stream_steps(self, ts, op)
